@@ -151,6 +151,19 @@ CHECKS["C18"] = dict(
     technique="Coq proof (invariant over proxy operations; premise on facts regenerated from the source; cache-key case analysis) + recording transport with session sentinel",
     design="7/C18")
 
+CHECKS["C07"] = dict(
+    text="Machine-checked proof (Coq): for EVERY dataset tree (any depth, width, rank, name length) whose names are in quoted form, "
+         "the DDS parser model applied to the DDS printer model returns exactly the declared tree (kinds, names, order, element types, "
+         "printed shapes and dimension names); printing the parsed tree reproduces the text exactly when Sequence members are scalars, "
+         "and provably not otherwise (refutation witness = known finding); any dimension list (named / anonymous / mixed) parses to the "
+         "shape and names it shows. Printer and parser models are compared with responses/dds.py and parsers/dds.py on generated "
+         "trees, reference-rendered foreign-style texts (Url, anonymous dims, mixed-case keywords, free layout) and mutated texts; "
+         "the parsed trees are also compared with the abstract specs directly.",
+    note=TB + "ASCII texts (Python's Unicode-aware \\w, \\d, lstrip modelled by their ASCII restrictions); numpy dtype char -> DAP2 type "
+              "through an independent table in the harness; names starting with 'dap4' excluded; fuelled parser model, fuel shown sufficient.",
+    technique="Coq proof (recursive-descent parser inverts the printer: induction over the nested tree with token-class lemmas; 256-case character facts by vm_compute) + vm_compute correspondence on generated trees and texts",
+    design="7/C07")
+
 NOT_YET = {
 }
 
